@@ -45,8 +45,15 @@ rpow = z3.Function('rpow', z3.RealSort(), z3.RealSort(), z3.RealSort())
 str_lower = z3.Function('str_lower', z3.StringSort(), z3.StringSort())
 
 
+# z3 AST ids are only stable while the term is alive; the engine keys several side tables (class hints,
+# element types, index terms...) by term id, so every simplified term is kept alive for the current path.
+KEEP = []
+
+
 def simp(e):
-    return z3.simplify(e)
+    r = z3.simplify(e)
+    KEEP.append(r)
+    return r
 
 
 def mk_int(i):
